@@ -311,6 +311,33 @@ class Effects:
             if isinstance(n, ast.stmt):
                 self._stmt(f, n)
 
+    def _just_made(self, f, s):
+        """the statement directly in front of `X += [..]` in the same block binds X to a container built there (a display,
+        a comprehension, list(..) / dict(..) / set(..)): the object extended is that new one whatever else X may hold on
+        other paths (a strong update the flow-insensitive summaries cannot see)"""
+        pm = getattr(f, "_parents_cache", None)
+        if pm is None:
+            pm = {}
+            for n in ast.walk(f.node):
+                for c in ast.iter_child_nodes(n):
+                    pm[id(c)] = n
+            try:
+                f._parents_cache = pm
+            except Exception:
+                pass
+        blk = pm.get(id(s))
+        for fld in ("body", "orelse", "finalbody"):
+            lst = getattr(blk, fld, None)
+            if isinstance(lst, list) and any(x is s for x in lst):
+                i = [k for k, x in enumerate(lst) if x is s][0]
+                if i == 0:
+                    return False
+                prev = lst[i - 1]
+                if isinstance(prev, ast.Assign) and len(prev.targets) == 1 and isinstance(prev.targets[0], ast.Name) and prev.targets[0].id == s.target.id:
+                    v = prev.value
+                    return isinstance(v, (ast.List, ast.Set, ast.Dict, ast.ListComp, ast.SetComp, ast.DictComp)) or (isinstance(v, ast.Call) and isinstance(v.func, ast.Name) and v.func.id in ("list", "dict", "set", "sorted"))
+        return False
+
     # ------------------------------------------------------------ statements
     def _stmt(self, f, s):
         if isinstance(s, ast.Assign):
@@ -325,7 +352,7 @@ class Effects:
                 k = self.var_key(f, s.target.id)
                 if k:
                     self.add(self.env, k, v)
-                if isinstance(s.value, (ast.List, ast.Set, ast.Dict, ast.ListComp, ast.SetComp, ast.DictComp)) and isinstance(s.op, (ast.Add, ast.BitOr)):
+                if isinstance(s.value, (ast.List, ast.Set, ast.Dict, ast.ListComp, ast.SetComp, ast.DictComp)) and isinstance(s.op, (ast.Add, ast.BitOr)) and not self._just_made(f, s):
                     self._mutation(f, s, s.target, "augmented assignment with a container display", ANY, self.contents(v))
             else:
                 self._assign(f, s.target, v, s)
